@@ -197,6 +197,12 @@ def generate(rng, tier, weights=None, max_ops=None, hostile=0.2):
     weights = weights or {}
     env = gen.gen_env(rng)
     tree = gen.gen_tree(rng, max_entries=weights.get("max_entries", 10), max_depth=3, hostile=hostile)
+    if rng.random() < weights.get("twins", 0.06):
+        # two canonically equivalent (NFC / NFD) names side by side
+        parent = rng.choice([""] + gen.tree_dirs(tree))
+        pre = parent + "/" if parent else ""
+        for n in rng.choice([("caf\u00e9.txt", "cafe\u0301.txt"), ("\u00c5.dat", "\u212b.dat")]):
+            tree.setdefault(pre + n, {"t": "f", "c": gen.unique_content(rng)})
     if rng.random() < weights.get("bigdir", 0.08):
         big = rng.choice([""] + gen.tree_dirs(tree))
         for i in range(rng.randint(11, 18)):
@@ -211,6 +217,13 @@ def generate(rng, tier, weights=None, max_ops=None, hostile=0.2):
     # nested histories: created on sub-directories before/after the outer root
     if rng.random() < weights.get("nested", 0.45):
         state["nested"] = scen.subroots_of(tree, rng, 3)
+        if rng.random() < 0.12:
+            # a chain of four histories: root > A > A/B > A/B/C
+            for d, f in (("A", "A/a.bin"), ("A/B", "A/B/b.bin"), ("A/B/C", "A/B/C/c.bin")):
+                tree.setdefault(d, {"t": "d"})
+                tree.setdefault(f, {"t": "f", "c": gen.unique_content(rng)})
+            state["tree"] = dict(tree)
+            state["nested"] = sorted(set(state["nested"]) | {"A", "A/B", "A/B/C"})
         if state["nested"] and rng.random() < 0.3:
             # siblings whose names merely START with the name of a nested history folder (N_proxy/, N.txt, "N 2")
             n = rng.choice(state["nested"])
@@ -241,6 +254,8 @@ def generate(rng, tier, weights=None, max_ops=None, hostile=0.2):
     pending = list(state["nested"])
     rng.shuffle(pending)
     n_ops = max_ops or rng.randint(3, 9 if tier == "quick" else 12)
+    if max_ops is None and rng.random() < weights.get("long", 0.03):
+        n_ops = rng.randint(16, 22)  # long runs: histories with more than nine generations
     n_creates = 0
     for i in range(n_ops):
         if pending and rng.random() < 0.5:
@@ -259,7 +274,7 @@ def generate(rng, tier, weights=None, max_ops=None, hostile=0.2):
         elif r < weights.get("p_create", 0.4) + weights.get("p_edit", 0.2) + weights.get("p_ro", 0.2):
             ops.append(gen_readonly(rng, state))
         elif r < 0.92:
-            ops.append(scen.gen_advance(rng))
+            ops.append(scen.gen_advance(rng) if rng.random() < 0.9 else {"op": "step_back", "us": rng.choice([1_000_000, 3_600_000_000, 90_000_000])})
         else:
             dest = rng.choice(["@S/out", "@M/flat", "@S/out/deeper"])
             fl = ["flatten", "@R", dest]
